@@ -54,7 +54,15 @@ def mimic_function[**Args, Result](
             except AttributeError:
                 pass
         try:
-            target.__dict__.update(function.__dict__)
+            # do not replace attributes already defined by target - when it is a wrapper object
+            # its own state (including the function it wraps) must not be overridden
+            target.__dict__.update(
+                {
+                    key: value
+                    for key, value in function.__dict__.items()
+                    if key not in target.__dict__
+                }
+            )
 
         except AttributeError:
             pass
